@@ -83,7 +83,7 @@ def check_pair(rep, g):
                         good = False
                         continue
                     k, rel = io.run_read_at(rrun, off)
-                    if k is None or rel != 0 or not io.eq_literal(lits, k, const):
+                    if k is None or not io.eq_literal(lits, k, const, rel):
                         rep.fail("C06.IO3", wi, ir.where(rrun["parts"][0][2].inst), "reader does not require this word to equal 0x%08X before returning" % const)
                         good = False
         if good:
@@ -163,7 +163,7 @@ def run(rep, tier):
             loc, msg = harness.first_error(h)
             rep.fail("C06.IO7", inst, loc, "reader does not compile: " + msg)
             continue
-        s = ir.Sym(h.func, epochs=True, cut_loops=True)
+        s = io.normalise_throws(ir.Sym(h.func, epochs=True, cut_loops=True), h.module)
         bad = io.unjustified_throws(s)
         if bad:
             rep.fail("C06.IO7", inst, ir.where(bad[0].inst), "the reader can throw depending on configuration/payload values (not on framing, width or stream state): some fields the writer dumps would be refused on load")
